@@ -95,7 +95,7 @@ func le32(data []byte, at int) uint32 {
 //@ invariant 0 [sensorinfo.ids] 0 <= i && i <= recordIDs && len(g.RecordIDs) == i &&
 //@    forall(qk, 0, i, g.RecordIDs[qk] == ipmi.RecordID(uint16(data[2+2*qk])|uint16(data[3+2*qk])<<8))
 //@ ensures [C07.sensorinfo-accept] (result == nil) == (len(data) >= 2 && len(data) >= 2+2*int(data[1]))
-//@ ensures [C07.sensorinfo] result == nil ==> g.Instances == data[0] && len(g.RecordIDs) == int(data[1]) && forall(qk, 0, int(data[1]), uint16(g.RecordIDs[qk]) == le16(data, 2+2*qk)) &&
+//@ ensures [C07+C16.sensorinfo] result == nil ==> g.Instances == data[0] && len(g.RecordIDs) == int(data[1]) && forall(qk, 0, int(data[1]), uint16(g.RecordIDs[qk]) == le16(data, 2+2*qk)) &&
 //@    aliases(g.Contents, data, 0, 2+2*int(data[1])) && aliases(g.Payload, data, 2+2*int(data[1]), len(data))
 
 // ---- get_power_reading.go
